@@ -102,6 +102,8 @@ def compare_child(c, ec, exp, where):
             denoted = refnum.parse(str(got))
         except ValueError:
             raise Failure(f"{where}-value:Number-not-a-number", f"{exp['name']}.{ec['name']}: {got!r}")
+        if not refnum.conforms(str(got), spec["format"]):
+            raise Failure(f"{where}-value:Number-not-in-format", f"{exp['name']}.{ec['name']}: {got!r} is not how {spec['format']!r} renders a number")
         tol = refnum.resolution(spec["format"]) * (1 + 1e-9) + abs(v) * 1e-12
         if abs(denoted - v) > tol:
             raise Failure(f"{where}-value:Number", f"{exp['name']}.{ec['name']}: text {got!r} denotes {denoted}, driver holds {v} (format {spec['format']})")
